@@ -79,6 +79,13 @@ func (d *gdriver) somePoints(n int) data.Points {
 	pts := make(data.Points, n)
 	for i := range pts {
 		pts[i] = data.Point{Type: types[d.r.Intn(len(types))], Key: keys[d.r.Intn(len(keys))], Time: d.now(), Text: c01Str(d.r), Origin: []string{"", "user-x", d.tag}[d.r.Intn(3)]}
+		if d.r.Chance(0.2) {
+			pts[i].Data = make([]byte, 1+d.r.Intn(12))
+			d.r.Read(pts[i].Data)
+		}
+		if d.r.Chance(0.1) {
+			pts[i].Tombstone = []int{2, 3, 4, 7}[d.r.Intn(4)] // counts above 1 (odd = deleted, even = restored)
+		}
 		switch d.r.Intn(6) {
 		case 0:
 			pts[i].Value = math.Copysign(0, -1)
